@@ -2,7 +2,7 @@
 # Integrator's build while module authors are editing their own files in place:
 # copies the harness, replaces the modules under construction by their committed versions.
 set -e
-UNDER="${UNDER:-c12}"
+UNDER="${UNDER:-}"
 rsync -a --delete --exclude target /verif/harness/ /verif/.mydev/
 for m in $UNDER; do
   rm -f /verif/.mydev/vh/src/${m}_*.rs
